@@ -618,6 +618,13 @@ impl Table {
         self.metadata.key_range.overlaps_with_bounds(bounds)
     }
 
+    #[cfg(feature = "verif_hooks")]
+    #[doc(hidden)]
+    #[must_use]
+    pub fn verif_seqnos(&self) -> (SeqNo, SeqNo) {
+        self.metadata.seqnos
+    }
+
     /// Returns the highest sequence number in the table.
     #[must_use]
     pub fn get_highest_seqno(&self) -> SeqNo {
